@@ -58,11 +58,11 @@ func (s *swamp) PatchExpired(howMany int32, ops []msgpackpatch.Op, condition *ms
 	s.buildBeacon(s.expirationTimeBeaconASC, s.expirationTimeBeaconDESC, BeaconTypeExpirationTime)
 
 	selected, capReached := s.expirationTimeBeaconASC.SelectExpiredForPatchWithCap(int(howMany), selectionPredicate, capPredicate, int(capMax))
-	if verifhook.Enabled {
-		verifhook.Yield("patchexpired.selected", s, len(selected))
-	}
 	if len(selected) == 0 {
 		return nil, capReached, nil
+	}
+	if verifhook.Enabled {
+		verifhook.Yield("patchexpired.selected", s, len(selected))
 	}
 
 	// Mirror the same removal on the DESC beacon to keep both indexes
